@@ -48,7 +48,7 @@ def install(reg):
                  "measurements_are_the_analysis_result": "implies(called('scan_file'), result._measurements is call_result('scan_file'))"},
         call_sites={"lex": {"whole_file_with_comments": "arg0 is lexer and arg1 == call_result('_read_file') and not arg2"},
                     "scan_file": {"of_the_lexed_tokens": "arg0 is call_result('lex')"}},
-        modifies=["*"], props=("C05", "C07", "C12"),
+        modifies=[], props=("C05", "C07", "C12"),
     )
     SCOPE_OK = ("forall(0, len(result), lambda k: 0 <= result[k].header.token_range.start < result[k].block.end <= len({toks}) "
                 "and result[k].header.token_range.start < len({toks}))")
